@@ -1120,6 +1120,12 @@ def report(ck, res):
                          {'stream': 'c01_gadgets', 'case': d['case'], 'seed': d.get('seed'), 'ops': d.get('ops'), 'nl': d.get('nl'),
                           'options': d.get('options'), 'only_impl': d.get('only_impl'), 'only_model': d.get('only_model')},
                          found_input=False)
+    rcv = res.get('refconv') or {}
+    ck.cov['reference_converter_tie'] = {k: v for k, v in rcv.items() if k not in ('violations',)}
+    for sig, what in rcv.get('violations', []):
+        ck.add_violation(sig, what, {'stream': 'c01_refconv', 'how': 'pipe the op line to lean/.lake/build/bin/drv_c01; the same model is written by '
+                                     'checks/c01_refconv.py build() and run through recsolver with RECSOLVER_ACCEPT = NATIVE|LINEAR'},
+                         found_input=(sig == 'refconv-property'))
     if not res.get('proof_ok', True):
         for fdecl in res.get('failing', []):
             ck.add_violation('obligation:%s' % fdecl, 'proof obligation no longer checks: %s' % fdecl,
@@ -1365,6 +1371,13 @@ def run_gadgets(ck, n_cases=None, proof=True):
     except Exception as ex:
         dis.append({'type': 'condeq', 'why': 'harness exception %r' % (ex,), 'case': 'condeq', 'ops': []})
     res['findings'] = findings
+    # round 5: the Lean reference converter `convert` against the real converter on generated models of its fragment
+    try:
+        import c01_refconv
+        nrc = 30 if ck.tier == 'quick' else 200
+        res['refconv'] = c01_refconv.run_refconv(ck, drv, exe, nrc, ck.seed, wd)
+    except Exception as ex:
+        res['refconv'] = {'harness_exception': repr(ex)[:300], 'violations': [('refconv-harness', 'harness exception %r' % (ex,))]}
     drv.close()
     stats['model_arms'] = dict(sorted(MODEL_ARMS.items()))
     res['disagreements'] = dis
@@ -1377,6 +1390,15 @@ def run_gadgets(ck, n_cases=None, proof=True):
     ck.log('  context edges (parent rule vs context stored on the argument definition) checked: %d' % stats.get('ctx_edges', 0))
     ck.log('  unary-encoding cases compared: %d, binary-product term cases compared: %d' % (stats.get('uenc_cases', 0), stats.get('mulbin_cases', 0)))
     ck.log('  hit: ' + ', '.join('%s:%d' % kv for kv in sorted(stats['hit'].items())))
+    rcv = res.get('refconv') or {}
+    if 'compared' in rcv:
+        ck.log('  reference converter `convert` vs real converter: %d fragment models (%d drawn, %d flagged shortcut by the reference), '
+               '%d model x acceptance-set comparisons, %d agree (%.0f%%), %d refusals on both sides, %d disagreements '
+               '(%d with the real delivered model passing the exact oracle = drift of the reference converter)'
+               % (rcv['models'], rcv['drawn'], rcv['shortcut'], rcv['compared'], rcv['agree'],
+                  100.0 * rcv['agree'] / max(1, rcv['compared']), rcv['refusal_agree'], rcv['disagree'], rcv['drift']))
+        for k, v in sorted(rcv['classes'].items()):
+            ck.log('    disagreement class %s: %d' % (k, v))
     if stats['unmodelled']:
         ck.log('  unmodelled (preprocessing shortcuts outside the model): ' + ', '.join('%s:%d' % kv for kv in sorted(stats['unmodelled'].items())))
     return res
